@@ -521,4 +521,49 @@ theorem compile_source_stages (F : Api.Front) (T : Api.TypedCfg) (w : World) (sr
   · simp only [Api.middle, h1, h2, h3]
   · simp only [Api.middle, h1, h2, h3, ho, if_true, h4]
 
+/-! ### typed maps: `Val.tmap zero isNil kvs` is a `map[string]T` for `T` other than `interface{}`
+
+Nothing in the refinement theorems depends on the shape of the values (member access, `in`, `len`, `==`
+are the same run-time functions `fetchV`, `inV`, `lengthV`, `equalV` on both sides), so they cover typed
+maps as they are.  What the run-time library does with them — checked against `vm/runtime.go` by the
+correspondence over the members `MI`, `MS`, `MN` of the harness environment: -/
+
+/-- `fetch`: a missing key reads as `reflect.Zero(v.Type().Elem())`, nil-safe or not, nil map or not
+    (`MI.nope + 1 == 1`, `MS["nope"] + "x" == "x"`) — not as `nil`, as for `map[string]interface{}` -/
+theorem typed_map_missing_key_zero (z : Val) (isNil : Bool) (kvs : List (String × Val)) (k : String) (nilsafe : Bool)
+    (h : lookupKv k kvs = none) : fetchV (.tmap z isNil kvs) (.str k) nilsafe = .ok z := by
+  simp [fetchV, h]
+
+theorem typed_map_present_key (z v : Val) (isNil : Bool) (kvs : List (String × Val)) (k : String) (nilsafe : Bool)
+    (h : lookupKv k kvs = some v) : fetchV (.tmap z isNil kvs) (.str k) nilsafe = .ok v := by
+  simp [fetchV, h]
+
+/-- `in` and `len` look at the entries only; a key that is not a string is a `reflect` panic -/
+theorem typed_map_in_len (z : Val) (isNil : Bool) (kvs : List (String × Val)) (k : String) :
+    inV (.str k) (.tmap z isNil kvs) = .ok (lookupKv k kvs).isSome ∧
+    inV (.int .int 1) (.tmap z isNil kvs) = .error .type_ ∧ inV .nil (.tmap z isNil kvs) = .error .type_ ∧
+    fetchV (.tmap z isNil kvs) (.int .int 1) false = .error .type_ ∧
+    lengthV (.tmap z isNil kvs) = .ok kvs.length :=
+  ⟨rfl, rfl, rfl, rfl, rfl⟩
+
+/-- `==`: the nil map equals `nil` (`runtime.isNil`), the empty one does not, and neither equals a
+    `map[string]interface{}` with the same entries (`reflect.DeepEqual` compares the types) -/
+theorem typed_map_equal (z : Val) (kvs : List (String × Val)) :
+    equalV (.tmap z true kvs) .nil = true ∧ equalV .nil (.tmap z true kvs) = true ∧
+    equalV (.tmap z false kvs) .nil = false ∧ equalV (.tmap z false kvs) (.map kvs) = false ∧
+    equalV (.tmap z true []) (.tmap z false []) = false :=
+  ⟨rfl, rfl, rfl, rfl, by simp [equalV, refSem, armTypeOf, Val.isNilRef, Val.deepEq]⟩
+
+/-- `MI.nope + 1` over `MI : map[string]int{"a": 1}`: compiled run and language definition agree on 1 -/
+example :
+    let w : World := { call := fun _ _ => .ok .nil, regexMatch := fun _ _ => none, pow := fun a _ => a }
+    let c : Cfg := { world := w, env := .struct "Env" true [("MI", .tmap (.int .int 0) false [("a", .int .int 1)])],
+                     budget := 1000, defects := Defects.none }
+    let tree : Node := .binary {} "+" (.prop {} (.ident {} "MI" false) "nope" false) (.int {} 1)
+    (match compileProgram {} tree with
+     | .ok cp =>
+       (match (run c (Refine.progOf cp) 50).1, (Spec.eval (Refine.specOf c) [] tree {}).1 with
+        | .ok (.int .int 1), .ok (.int .int 1) => true | _, _ => false)
+     | .error _ => false) = true := by decide
+
 end ExprModel.C01
